@@ -3,13 +3,22 @@
 use crate::engine::{Report, Tier};
 use serde_json::Value;
 
+pub mod c03;
+pub mod c04;
 pub mod c17;
+pub mod c18;
+pub mod c19;
+pub mod sendbody;
 
 pub type RunFn = fn(Tier) -> Report;
 pub type ReplayFn = fn(&Value) -> Result<Option<String>, String>;
 
 pub fn registry() -> Vec<(&'static str, RunFn, &'static str, ReplayFn)> {
     vec![
+        ("C03", c03::run, c03::RULE, c03::replay),
+        ("C04", c04::run, c04::RULE, c04::replay),
         ("C17", c17::run, c17::RULE, c17::replay),
+        ("C18", c18::run, c18::RULE, c18::replay),
+        ("C19", c19::run, c19::RULE, c19::replay),
     ]
 }
